@@ -72,7 +72,14 @@ ParamChange(p) ==
     /\ last' = [act |-> "ParamChange", moved |-> Zero]
     /\ UNCHANGED <<pool, sink, halted>>
 
-Next == BeginBlock \/ \E p \in ParamSpace : ParamChange(p)
+(* Governance changes the bank module's transfer switches (SendEnabled of one denomination, or the default): they apply *)
+(* to transfers between accounts, never to what a module moves between module accounts - vesting goes on unchanged.      *)
+BankSwitch(d, on) ==
+    /\ ~halted
+    /\ last' = [act |-> "BankSwitch", moved |-> Zero]
+    /\ UNCHANGED <<pool, sink, params, halted>>
+
+Next == BeginBlock \/ (\E p \in ParamSpace : ParamChange(p)) \/ (\E d \in Denoms \cup {"default"}, on \in BOOLEAN : BankSwitch(d, on))
 
 Spec == Init /\ [][Next]_vars
 
